@@ -258,6 +258,7 @@ static void dispatch(int na, char **a) {
   /* ---------------- C01 multiplication ---------------- */
   if (OP("mul_naive")) { NEED(5); setret(a[1], M(a[2]), mzd_mul_naive(M(a[2]), M(a[3]), M(a[4]))); }
   else if (OP("addmul_naive")) { NEED(5); setret(a[1], M(a[2]), mzd_addmul_naive(M(a[2]), M(a[3]), M(a[4]))); }
+  else if (OP("_mul_naive")) { NEED(6); setret(a[1], M(a[2]), _mzd_mul_naive(M(a[2]), M(a[3]), M(a[4]), I(a[5]))); } /* C (+)= A * Bt^T */
   else if (OP("mul_va")) { NEED(6); setret(a[1], M(a[2]), _mzd_mul_va(M(a[2]), M(a[3]), M(a[4]), I(a[5]))); }
   else if (OP("mul_m4rm")) { NEED(6); setret(a[1], M(a[2]), mzd_mul_m4rm(M(a[2]), M(a[3]), M(a[4]), I(a[5]))); }
   else if (OP("addmul_m4rm")) { NEED(6); setret(a[1], M(a[2]), mzd_addmul_m4rm(M(a[2]), M(a[3]), M(a[4]), I(a[5]))); }
